@@ -64,8 +64,10 @@ enum Fmt {
     Json,
     AvroOcf,
     Variant,
+    /// Parquet files with dictionary-typed Arrow columns (dictionary-preserving read path) and small-integer corruption of the data pages
+    ParquetDict,
 }
-const FMTS: [Fmt; 9] = [Fmt::IpcFile, Fmt::IpcStream, Fmt::IpcStreamDecoder, Fmt::Parquet, Fmt::ParquetMeta, Fmt::Csv, Fmt::Json, Fmt::AvroOcf, Fmt::Variant];
+const FMTS: [Fmt; 10] = [Fmt::IpcFile, Fmt::IpcStream, Fmt::IpcStreamDecoder, Fmt::Parquet, Fmt::ParquetMeta, Fmt::Csv, Fmt::Json, Fmt::AvroOcf, Fmt::Variant, Fmt::ParquetDict];
 
 fn simple_cfg(fmt: Fmt) -> TypeCfg {
     let mut c = TypeCfg::all();
@@ -137,6 +139,9 @@ fn make_valid(t: &mut Tape, fmt: Fmt, strict: bool, excluded: &mut Vec<String>) 
         let (m, v) = b.finish();
         return Some((v, None, m));
     }
+    if fmt == Fmt::ParquetDict {
+        return make_valid_parquet_dict(t);
+    }
     let cfg = simple_cfg(fmt);
     let ncols = 1 + t.below(3);
     let fields = gen_fields(t, &cfg, ncols, &|ty| !ty.any(&|x| matches!(x, LType::FixedBinary(0) | LType::FixedList(_, 0))));
@@ -199,7 +204,7 @@ fn make_valid(t: &mut Tape, fmt: Fmt, strict: bool, excluded: &mut Vec<String>) 
                 }
                 w.finish().map_err(|e| e.to_string())?;
             }
-            Fmt::Variant => unreachable!(),
+            Fmt::Variant | Fmt::ParquetDict => unreachable!(),
         }
         Ok(())
     });
@@ -223,6 +228,71 @@ fn ipc_opts(t: &mut Tape, strict: bool, excluded: &mut Vec<String>) -> arrow_ipc
         1 => o.try_with_compression(Some(arrow_ipc::CompressionType::ZSTD)).unwrap(),
         _ => o,
     }
+}
+
+/// Parquet file whose Arrow schema has dictionary columns over string / binary / integer values (the shapes of the open
+/// C05 dictionary findings - fixed-size binary and view values - are left out), always dictionary-encoded pages
+fn make_valid_parquet_dict(t: &mut Tape) -> Option<(Vec<u8>, Option<SchemaRef>, Vec<u8>)> {
+    use parquet::file::properties::{WriterProperties, WriterVersion};
+    let ncols = 1 + t.below(2);
+    let mut fields = vec![];
+    for i in 0..ncols {
+        let value = match t.below(6) {
+            0 => LType::Utf8(Enc::O32),
+            1 => LType::Binary(Enc::O32),
+            2 => LType::Utf8(Enc::O64),
+            3 => LType::Int { bits: 32, signed: true },
+            4 => LType::Int { bits: 64, signed: true },
+            _ => LType::Utf8(Enc::O32),
+        };
+        let (kbits, ksigned) = *t.pick(&[(8u8, true), (8, false), (16, true), (32, true), (64, true), (16, false), (32, false)]);
+        let ty = if i == 1 && t.chance(80) { LType::Int { bits: 32, signed: true } } else { LType::Dict { kbits, ksigned, value: Box::new(value) } };
+        fields.push(LField { name: format!("d{}", i), ty, nullable: t.bool() });
+    }
+    let schema = schema_of(&fields, None);
+    let nb = 1 + t.below(2);
+    let mut batches = vec![];
+    for _ in 0..nb {
+        let rows = 1 + t.below(40);
+        let cols = gen_lbatch(t, &fields, rows, &ValCfg { max_str: 10, ..ValCfg::default() });
+        batches.push(realise_batch(t, &schema, &fields, &cols, rows, &Lay::plain()));
+    }
+    let mut out: Vec<u8> = vec![];
+    let ok = catch(|| -> Result<(), String> {
+        let p = WriterProperties::builder()
+            .set_dictionary_enabled(true)
+            .set_data_page_row_count_limit(1 + t.below(20))
+            .set_write_batch_size(1 + t.below(20))
+            .set_writer_version(if t.bool() { WriterVersion::PARQUET_2_0 } else { WriterVersion::PARQUET_1_0 });
+        let mut w = parquet::arrow::ArrowWriter::try_new(&mut out, schema.clone(), Some(p.build())).map_err(|e| e.to_string())?;
+        for b in &batches {
+            w.write(b).map_err(|e| e.to_string())?;
+        }
+        w.close().map_err(|e| e.to_string())?;
+        Ok(())
+    });
+    match ok {
+        Ok(Ok(())) => Some((out, Some(schema), vec![])),
+        _ => None,
+    }
+}
+
+/// set 1-2 bytes of the data region (everything before the footer) to a small integer: bit widths of RLE / bit-packed runs,
+/// level encodings, page-header enum values and varint lengths are single small bytes
+fn corrupt_small_ints(t: &mut Tape, d: &mut [u8]) -> Vec<String> {
+    let mut desc = vec![];
+    if d.len() < 16 {
+        return desc;
+    }
+    let flen = u32::from_le_bytes([d[d.len() - 8], d[d.len() - 7], d[d.len() - 6], d[d.len() - 5]]) as usize;
+    let end = d.len().saturating_sub(8 + flen).max(5).min(d.len());
+    for _ in 0..1 + t.below(2) {
+        let p = 4 + t.below(end - 4);
+        let v = *t.pick(&[8u8, 16, 32, 7, 9, 64, 0, 1, 15, 17, 31, 33, 24, 255, 128, 63]);
+        d[p] = v;
+        desc.push(format!("data byte {} = {}", p, v));
+    }
+    desc
 }
 
 /// little-endian u32 fields that look like lengths/offsets/counts (value below the file length, not zero)
@@ -421,7 +491,7 @@ fn read_all(fmt: Fmt, data: &[u8], schema: &Option<SchemaRef>, meta: &[u8]) -> R
                 }
             }
         }
-        Fmt::Parquet => match parquet::arrow::arrow_reader::ParquetRecordBatchReaderBuilder::try_new(Bytes::copy_from_slice(data)) {
+        Fmt::Parquet | Fmt::ParquetDict => match parquet::arrow::arrow_reader::ParquetRecordBatchReaderBuilder::try_new(Bytes::copy_from_slice(data)) {
             Err(e) => o.err = Some(e.to_string()),
             Ok(b) => match b.with_batch_size(7).build() {
                 Err(e) => o.err = Some(e.to_string()),
@@ -531,7 +601,13 @@ fn sub_corrupt(c: &mut Case, fmt: Fmt) -> CaseResult {
     let other = if c.tape.chance(40) { make_valid(&mut c.tape, fmt, strict, &mut vec![]).map(|x| x.0).unwrap_or_default() } else { vec![] };
     let mut data = valid.clone();
     let mut meta2 = meta.clone();
-    let desc = if fmt == Fmt::Variant && c.tape.bool() { corrupt(&mut c.tape, &mut meta2, &[]) } else { corrupt(&mut c.tape, &mut data, &other) };
+    let desc = if fmt == Fmt::ParquetDict && c.tape.chance(160) {
+        corrupt_small_ints(&mut c.tape, &mut data)
+    } else if fmt == Fmt::Variant && c.tape.bool() {
+        corrupt(&mut c.tape, &mut meta2, &[])
+    } else {
+        corrupt(&mut c.tape, &mut data, &other)
+    };
     c.describe(json!({"format": format!("{:?}", fmt), "file_len": valid.len(), "corruptions": desc}));
     // known finding (C17 F17): the Avro OCF reader can spin forever on a block whose records consume fewer bytes than
     // the block size; the read runs on a helper thread with a deadline and a hang is reported under that signature
@@ -574,7 +650,7 @@ fn sub_corrupt(c: &mut Case, fmt: Fmt) -> CaseResult {
                 if matches!(fmt, Fmt::Variant) {
                     return Err(Fail::new("variant:panic:validated-value-traversal", format!("Variant::try_new accepted the value but traversing it panicked at {}: {}", p.loc, p.msg)));
                 }
-                if matches!(fmt, Fmt::Parquet) {
+                if matches!(fmt, Fmt::Parquet | Fmt::ParquetDict) {
                     return Err(Fail::new("parquet:panic:corrupted-page-data", format!("Parquet reader panicked at {}: {}", p.loc, p.msg)));
                 }
                 return Err(Fail::new(format!("{:?}:{}", fmt, p.sig()), format!("{:?} reader panicked at {}: {}", fmt, p.loc, p.msg)));
@@ -617,9 +693,11 @@ fn main() {
             Fmt::Json => "json",
             Fmt::AvroOcf => "avro_ocf",
             Fmt::Variant => "variant",
+            Fmt::ParquetDict => "parquet_dict",
         };
         let (q, th) = match fmt {
             Fmt::Parquet => (4000, 120000),
+            Fmt::ParquetDict => (6000, 150000),
             Fmt::AvroOcf => (2000, 40000),
             _ => (5000, 150000),
         };
